@@ -50,16 +50,18 @@ def rollingMedianPrefix (x : List Rat) (width : Rat) : Except WingErr (List Rat)
 
 def dot (a b : List Rat) : Rat := ((a.zip b).map (fun p => p.1 * p.2)).sum
 
-/-- the `2·wing+1` signal values under the window centred at `k`, the signal being extended by
-    `wing` zeros on both sides -/
-def windowAt (wing : Nat) (y : List Rat) (k : Nat) : List Rat :=
-  ((List.replicate wing 0 ++ y ++ List.replicate wing 0).drop k).take (2 * wing + 1)
+/-- the signal extended by `wing` zeros on both sides -/
+def zeroPad (wing : Nat) (y : List Rat) : List Rat := List.replicate wing 0 ++ y ++ List.replicate wing 0
+
+/-- the `2·wing+1` values of the zero-extended signal `z` under the window centred at `k` -/
+def windowAt (wing : Nat) (z : List Rat) (k : Nat) : List Rat := (z.drop k).take (2 * wing + 1)
 
 /-- `np.convolve(window, y, mode="same")` for an odd window `2·wing+1 ≤ len(y)`:
     `out[k] = Σ_j window[j]·y[k + wing − j]`, the signal being zero outside its support -/
 def convSame (window y : List Rat) : List Rat :=
   let wing := (window.length - 1) / 2
-  (List.range y.length).map (fun k => dot window (windowAt wing y k).reverse)
+  let z := zeroPad wing y
+  (List.range y.length).map (fun k => dot window (windowAt wing z k).reverse)
 
 /-- the same for a signal that may hold non-finite entries (`none`): a window touching one gives a
     non-finite value (`nan·0 = nan`, `inf − inf = nan`) -/
